@@ -237,7 +237,11 @@ func isLocalhost(host string) bool {
 
 func openBrowser(url string, o *plugin.Options) {
 	// Construct URL.
-	baseURL, _ := gourl.Parse(url)
+	baseURL, err := gourl.Parse(url)
+	if err != nil {
+		o.UI.PrintErr(err)
+		return
+	}
 	current := currentConfig()
 	u, _ := current.makeURL(*baseURL)
 
